@@ -460,6 +460,10 @@ pub fn c14(ntok: usize, kinds: &[String], lines: &[Line], well_formed: bool) -> 
         if eofs.len() != 1 || eofs[0].tokens != vec![ntok - 1] {
             return v("C14", "eof_line", format!("{} Eof lines: {:?}", eofs.len(), eofs.iter().map(|l| &l.tokens).collect::<Vec<_>>()));
         }
+        // a line that holds the end-of-file token is an end-of-file line: there is one, and it holds nothing else
+        if let Some((li, l)) = lines.iter().enumerate().find(|(_, l)| l.typ != "Eof" && l.tokens.contains(&(ntok - 1))) {
+            return v("C14", "eof_line", format!("the end-of-file token is also in line {li} ({}) with tokens {:?}", l.typ, l.tokens));
+        }
     }
     None
 }
